@@ -36,4 +36,16 @@ CHECKS = {
         trusted_base=TB,
         assumptions=["usize is 64 bit on the analysis host"],
     ),
+    "C10": dict(
+        packs=["c10"], level="other",
+        explanation="Structural necessary conditions of framebuffer read-after-write, decided on the MIR of all set_pixel impls, as_image, pixel, BUFFER_SIZE and CHECK_N: "
+                    "R10.1 the writer depends on the data order iff the reader's load does (parametricity), R10.2 endianness / documented bit position pairing, "
+                    "R10.3 every write into self.data is dominated by 0<=x<WIDTH and 0<=y<HEIGHT, R10.6 the byte index has the padded-row layout ImageRaw reads, "
+                    "R10.4 as_image views data[0..BUFFER_SIZE] with the same colour type/order and pixel() goes through it, R10.5 N>=BUFFER_SIZE is forced at compile time.",
+        claim="Decides layout agreement between writer and reader for all 7 depths x 2 orders (order dependence, endianness, bit position, padded row stride, guards, compile-time size check); histories as such follow from these but are not enumerated.",
+        note="Necessary conditions; index forms are compared with the canonical padded-row formula after constant folding, other equivalent arithmetic is reported as undecided.",
+        technique="type-parameter dependence + dominating-guard extraction + origin-tree comparison over MIR",
+        trusted_base=TB,
+        assumptions=["usize is 64 bit on the analysis host"],
+    ),
 }
